@@ -4,9 +4,6 @@ STUB_TRUST = ['stubs/rle_stubs.c: assumed contracts for carquet_bitunpack8_32 / 
               'reads bit_width bytes, writes 8 values / reads 8 values, writes bit_width bytes; contents arbitrary) and '
               'carquet_buffer_append (src/core/buffer.c: data readable for size bytes, may fail)',
               'rle.c scalar path (#if defined(__SSE2__) / __ARM_NEON blocks compiled out by #undef in the harness)']
-# `x << (i * 8)` with i >= 4 in the RLE value-byte loops (bit widths 33..255): undefined shift, reported as a
-# finding / supporting fact (DESIGN 5 C08), not part of the property's text (no memory access depends on it)
-SHIFT_SOFT = [r'^shift distance too large in .*<< i \* 8']
 
 D = dict(overlays=['contracts/rle.ovl'], harness='harness/C08/rle.c', prop='C08',
          extra_sources=['stubs/mem_stubs.c', 'stubs/rle_stubs.c'], trusted=STUB_TRUST)
@@ -22,9 +19,6 @@ E = dict(overlays=['contracts/rle.ovl'], harness='harness/C11/rle.c', prop='C11'
 ENC_HELPERS = ['flush_bitpack', 'flush_rle', 'complete_bitpack_group_from_run']
 PUT_FLUSH = ['carquet_rle_encoder_init', 'carquet_rle_encoder_put', 'carquet_rle_encoder_flush']
 FZ_RT = dict(kind='fuzz', harness='replay/fz/rle_roundtrip.c', sources=RLE_SRCS, max_len=48, secs=20)
-ENC_NOTE = ('FINDING (genuine, native demo /tmp/rle/demo_roundtrip.c, fix /tmp/rle/rle_encoder_fix.diff): a run of >= 8 that ends '
-            'while 0 < bitpack_count < 8 makes flush_bitpack pad the literal group in mid-stream and a run header '
-            'follows the padding (requires G_pad == 0 of flush_rle fails); stays wip until /repo is fixed')
 
 S12 = dict(overlays=['contracts/rle.ovl'], harness='harness/C12/rle.c', prop='C12', loop_contracts=False,
            defines=['RLE_STUB_RECORD=1'], extra_sources=['stubs/mem_stubs.c', 'stubs/rle_stubs.c'],
@@ -35,7 +29,7 @@ FZ_SPEC = dict(kind='fuzz', harness='replay/fz/rle_spec_decode.c', sources=RLE_S
 JOBS = [
     dict(name='c08_rle_read_varint', replayer=FZ_DEC, entry='h_rle_read_varint', enforce='read_varint', min_loop_obligations=1, **D),
     dict(name='c08_rle_start_new_run', replayer=FZ_DEC, entry='h_rle_start_new_run', enforce='start_new_run',
-         replace=['read_varint'], min_loop_obligations=2, soft=SHIFT_SOFT, **D),
+         replace=['read_varint'], min_loop_obligations=2, **D),
     dict(name='c08_rle_fill_bitpack_buffer', replayer=FZ_DEC, entry='h_rle_fill_bitpack', enforce='fill_bitpack_buffer',
          loop_contracts=False, **D),
     dict(name='c08_rle_decoder_init', entry='h_rle_init', enforce='carquet_rle_decoder_init', loop_contracts=False,
@@ -47,26 +41,24 @@ JOBS = [
     dict(name='c08_rle_decoder_get_batch', replayer=FZ_DEC, entry='h_rle_get_batch', enforce='carquet_rle_decoder_get_batch',
          replace=DEC_HELPERS, min_loop_obligations=4, est_s=60, **D),
     dict(name='c08_rle_decoder_skip', replayer=FZ_DEC, entry='h_rle_skip', enforce='carquet_rle_decoder_skip',
-         replace=DEC_HELPERS, min_loop_obligations=2, est_s=110, **D),
+         replace=DEC_HELPERS, min_loop_obligations=2, est_s=140, **D),
     dict(name='c08_rle_decode_all', replayer=FZ_DEC, entry='h_rle_decode_all', enforce='carquet_rle_decode_all',
          replace=['carquet_rle_decoder_init', 'carquet_rle_decoder_get_batch'], loop_contracts=False, **D),
     dict(name='c08_rle_decode_levels', replayer=FZ_DEC, entry='h_rle_decode_levels', enforce='carquet_rle_decode_levels',
-         min_loop_obligations=6, soft=SHIFT_SOFT, est_s=90, **D),
+         min_loop_obligations=6, est_s=40, **D),
     dict(name='c08_rle_decode_levels_prefixed', replayer=FZ_PFX, entry='h_rle_decode_levels_prefixed',
-         enforce='carquet_rle_decode_levels_prefixed', replace=['carquet_rle_decode_levels'], loop_contracts=False,
-         note='FINDING (genuine, native ASan demo /tmp/rle/demo_prefixed.c): 4 + rle_length wraps in 32 bits, decode_levels is '
-              'called with a window beyond the input; stays wip until /repo is fixed', **W, **D),
+         enforce='carquet_rle_decode_levels_prefixed', replace=['carquet_rle_decode_levels'], loop_contracts=False, **D),
     ] + [
     # ---- C11: encoder count preservation (ghost state) --------------------------------------------
-    dict(name='c11_rle_enc_append', entry='h_c11_enc_append', enforce='enc_append', loop_contracts=False, **W, **E),
+    dict(name='c11_rle_enc_append', entry='h_c11_enc_append', enforce='enc_append', loop_contracts=False, **E),
     dict(name='c11_rle_complete_group', entry='h_c11_complete_group', enforce='complete_bitpack_group_from_run',
-         replace=['flush_bitpack'], min_loop_obligations=1, **W, **E),
+         replace=['flush_bitpack'], min_loop_obligations=1, **E),
     dict(name='c11_rle_encoder_put_repeat', entry='h_c11_put_repeat', enforce='carquet_rle_encoder_put_repeat',
-         replace=['carquet_rle_encoder_put'], min_loop_obligations=1, **W, **E),
+         replace=['carquet_rle_encoder_put'], min_loop_obligations=1, **E),
     dict(name='c11_rle_encode_all', entry='h_c11_encode_all', enforce='carquet_rle_encode_all', replace=PUT_FLUSH,
-         min_loop_obligations=1, replayer=FZ_RT, **W, **E),
+         min_loop_obligations=1, replayer=FZ_RT, **E),
     dict(name='c11_rle_encode_levels', entry='h_c11_encode_levels', enforce='carquet_rle_encode_levels', replace=PUT_FLUSH,
-         min_loop_obligations=1, replayer=FZ_RT, **W, **E),
+         min_loop_obligations=1, replayer=FZ_RT, **E),
     dict(name='c11_rle_write_varint', entry='h_c11_write_varint', enforce='write_varint', min_loop_obligations=1, **E),
     dict(name='c11_rle_flush_rle', entry='h_c11_flush_rle', enforce='flush_rle', replace=['write_varint'],
          min_loop_obligations=1, **E),
@@ -74,14 +66,12 @@ JOBS = [
          min_loop_obligations=2, **E),
     dict(name='c11_rle_encoder_init', entry='h_c11_encoder_init', enforce='carquet_rle_encoder_init', loop_contracts=False,
          defines=['CQV_MEMSET_EXACT=128'], unwindset=['memset.0:129'], **E),
-    dict(name='c11_rle_encoder_put', replayer=FZ_RT, note=ENC_NOTE, entry='h_c11_put', enforce='carquet_rle_encoder_put', replace=ENC_HELPERS,
-         min_loop_obligations=1, **W, **E),
-    dict(name='c11_rle_encoder_flush', replayer=FZ_RT, note=ENC_NOTE, entry='h_c11_flush', enforce='carquet_rle_encoder_flush', replace=ENC_HELPERS,
-         min_loop_obligations=1, **W, **E),
+    dict(name='c11_rle_encoder_put', replayer=FZ_RT, entry='h_c11_put', enforce='carquet_rle_encoder_put', replace=ENC_HELPERS,
+         min_loop_obligations=1, **E),
+    dict(name='c11_rle_encoder_flush', replayer=FZ_RT, entry='h_c11_flush', enforce='carquet_rle_encoder_flush', replace=ENC_HELPERS,
+         min_loop_obligations=1, **E),
     dict(name='c11_rle_encoder_flush_append_failures', entry='h_c11_flush', enforce='carquet_rle_encoder_flush',
-         replace=ENC_HELPERS, min_loop_obligations=1, defines=['RLE_CHECK_APPEND=1'],
-         note='FINDING: results of carquet_buffer_append are ignored in write_varint/flush_rle/flush_bitpack: flush returns '
-              'CARQUET_OK although appends failed (native demo /tmp/rle/demo_append.c); also fails for ENC_NOTE', **W, **E),
+         replace=ENC_HELPERS, min_loop_obligations=1, defines=['RLE_CHECK_APPEND=1'], **E),
     ] + [
     # ---- C12: run header forms vs. specs/rle_spec.h (harness is the contract, loops unwound completely) ----
     dict(name='c12_rle_read_varint_spec', entry='h_c12_read_varint', functions=['read_varint'], unwind=7, **S12),
@@ -91,6 +81,5 @@ JOBS = [
          unwind=33, est_s=40, **S12),
     dict(name='c12_rle_start_new_run_forms', entry='h_c12_start_new_run_forms', functions=['start_new_run', 'read_varint'],
          unwind=7, replayer=FZ_SPEC,
-         note='FINDING: a zero-length RLE run does not consume its repeated-value bytes (native demo /tmp/rle/demo_zero_run.c)',
-         **W, **S12),
+         **S12),
 ]
